@@ -281,7 +281,12 @@ def isclose(a, b, rtol=1e-05, atol=1e-08, equal_nan=False):
         d = tx - ty
         ad = z3.If(d >= 0, d, -d)
         ay = z3.If(ty >= 0, ty, -ty)
-        return SymBool(ad <= core.rv(atol) + core.rv(rtol) * ay)
+        tol = core.rv(atol) + core.rv(rtol) * ay
+        if core.have_ctx():
+            # remembered so that a counterexample can be asked for AWAY from the tolerance's edge (a model that sits on
+            # the edge in exact arithmetic falls on either side once rounded to float64)
+            core.cur().data.setdefault('tolerances', []).append((ad, tol))
+        return SymBool(ad <= tol)
     aa = _np.asarray(a, dtype=object) if not isinstance(a, _np.ndarray) else a
     bb = _np.asarray(b, dtype=object) if not isinstance(b, _np.ndarray) else b
     if aa.ndim == 0 and bb.ndim == 0:
